@@ -14,8 +14,16 @@
    mutate (a cached record is updated in place, the datastore only by flush);
    deleteInPlace literally (swap-with-last loop); both GC modes.
 
-   Not modelled: MaxAddrsPerPeer (the model is the book whose cap never
-   binds), ARC eviction (the cache is disabled or large enough for the
+   Not modelled, by choice: Options.MaxAddrsPerPeer.  The model is the book whose
+   cap never binds (disabled, or the default 64 on the small universes of the
+   histories); that is the book the property's "exactly" and "same answers"
+   sentences can be about.  When the cap binds the real setAddrs counts the
+   peer's unconnected entries once per batch and evicts only among the entries
+   present before the batch, whereas pstoremem recounts per address and evicts
+   among everything stored, breaking expiry ties by Go map order: the two
+   books then keep different (and, for pstoremem, run-dependent) addresses.
+   Histories with a binding cap are generated and judged by the weak monitor of
+   Spec.v (soundness + the bound cap + 2k), not replayed on this model, ARC eviction (the cache is disabled or large enough for the
    universe), datastore errors, AddrStream.  sort.Slice is an insertion sort
    here (the order among equal expiries is not observable). *)
 From Coq Require Import List ZArith Bool.
